@@ -54,6 +54,8 @@ def compare_run(ck, frontend, setname, table, contexts, run, expected, single=No
                    f'{label0}: the front end raises {exc.tname}{exc.args}{site}', dict(set=setname))
         return
     used = set()
+    tclass = 'duplicate-labels' if table.index_labels and len(set(table.index_labels)) < len(table.index_labels) else \
+        ('labelled-index' if table.index_labels else 'table')
     for (ci, sid, mod, test), (rows, direct) in expected.items():
         if single is not None and sid != single:
             continue
@@ -69,9 +71,15 @@ def compare_run(ck, frontend, setname, table, contexts, run, expected, single=No
             continue
         if not match:
             got_masks = sorted({r[3] for _, r in cands if r[3] is not None})
-            ck.violate('C05.rows', f'{frontend}:{window_class(contexts[ci]["window"])}:wrong-rows',
+            ck.violate('C05.rows', f'{frontend}:{tclass}:{window_class(contexts[ci]["window"])}:wrong-rows',
                        f'{label}: expected a result on rows {rows}; the stream reports ' + (f'rows masks {got_masks}' if cands else 'no result for this test'),
                        dict(set=setname))
+            if len(cands) == 1 and tclass == 'duplicate-labels':
+                # the row mask is wrong (known finding), but the flags themselves can still be compared with the direct call
+                k, r = cands[0]
+                used.add(k)
+                equal_flags(ck, 'C05.flags', f'{frontend}:{test}:flags-despite-wrong-mask', f'direct {test} on rows {rows}', direct, label,
+                            StreamOutcome(r[4]), f'{frontend} vs direct call')
             continue
         k, r = match[0]
         used.add(k)
@@ -90,7 +98,7 @@ def compare_run(ck, frontend, setname, table, contexts, run, expected, single=No
                   what=f'{label}: ContextResult.{fld} is {got}, expected the window rows {want}')
     extra = [r for k, r in enumerate(run.results) if k not in used and (single is None or r[0] == single)
              and not any((sid, mod, tst) == (r[0], r[1], r[2]) and (d is None or d.kind == 'raise') for (ci, sid, mod, tst), (rows, d) in expected.items())]
-    ck.ob('C05.extra', label0, not extra, key=f'{frontend}:unexpected-results',
+    ck.ob('C05.extra', label0, not extra, key=f'{frontend}:{tclass}:unexpected-results',
           what=f'{label0}: results that no configured (context, stream, test) accounts for: {[(r[0], r[2], r[3]) for r in extra][:4]}')
 
 
@@ -152,6 +160,12 @@ def run(ck):
         src = make_config_source(contexts)
         expected = expected_direct(ck.runner, labelled, contexts)
         compare_run(ck, 'pandas', setname + '/labelled-index', labelled, contexts, run_frontend(ck.runner, 'pandas', labelled, src), expected)
+    # a frame with repeated row labels (two frames concatenated without ignore_index)
+    dup = Table(5, missing={'a': {2}}, index_labels=[0, 1, 2, 0, 1])
+    for setname, contexts in context_sets(False)[1:3]:
+        src = make_config_source(contexts)
+        expected = expected_direct(ck.runner, dup, contexts)
+        compare_run(ck, 'pandas', setname + '/duplicate-labels', dup, contexts, run_frontend(ck.runner, 'pandas', dup, src), expected)
     ck.floor('C05.rows', 100)
     ck.floor('C05.flags', 100)
 
